@@ -59,4 +59,10 @@ theorem C18_order (child : List Msg) (runOk : Bool) :
       = [Msg.start] ++ child ++ [if runOk then Msg.success else Msg.failure] := by
   simp [execMessages, Generated.Streamer.exec]
 
+/-- "Output() returns all of it", whatever the exit status: the captured text is read unconditionally
+    after Execute() (regenerated fact), so an unsuccessful child's output is returned too -/
+theorem C18_output_whatever_the_status (captured : List Msg) (runOk : Bool) :
+    outputText Generated.Streamer.exec captured runOk = captured := by
+  simp [outputText, Generated.Streamer.exec]
+
 end GoUtils.Props.C18
